@@ -1,7 +1,10 @@
 #!/bin/bash
-# offline setup: nothing is downloaded; checks tools and warms caches
+# offline setup: nothing is downloaded; checks the tools and warms the Kani build of the harness crate
 set -e
 cd "$(dirname "$0")"
+export PATH="$PATH:/root/.cargo/bin"
 verus --version >/dev/null
 mkdir -p gen evidence replays .cache
+cp -f /repo/Cargo.lock kx/Cargo.lock
+(cd kx && CARGO_NET_OFFLINE=true cargo kani -Z stubbing --output-format=terse --harness stub_u16_from_be_bytes >/dev/null 2>&1) || echo "warning: kani warm-up failed"
 echo "setup ok"
